@@ -22,7 +22,7 @@ Definition aval_eqb (a b : aval) : bool :=
   end.
 Definition outcome_eqb (a b : outcome) : bool :=
   match a, b with
-  | OOk, OOk | OErr, OErr | OPanic, OPanic | ONil, ONil => true
+  | OOk, OOk | OErr, OErr | OPanic, OPanic | ONil, ONil | OCancelBuild, OCancelBuild => true
   | _, _ => false
   end.
 (* the number of errors a DisposalError aggregates depends on who closed a nested scope
@@ -32,7 +32,7 @@ Definition eclass_eqb (a b : eclass) : bool :=
   | ENotFound, ENotFound | EScopeDisposed, EScopeDisposed | EProviderDisposed, EProviderDisposed
   | ECircular, ECircular | ELifetime, ELifetime | EAlready, EAlready | ENilInst, ENilInst
   | EValidation, EValidation | ETypeMismatch, ETypeMismatch | ESingletonNotInit, ESingletonNotInit
-  | EKeyNil, EKeyNil | ETypeNil, ETypeNil | EOther, EOther | EPanicked, EPanicked => true
+  | EKeyNil, EKeyNil | ETypeNil, ETypeNil | EOther, EOther | EPanicked, EPanicked | ECancelled, ECancelled => true
   | ECtorErr x, ECtorErr y => x =? y
   | ECtorPanic x, ECtorPanic y => x =? y
   | EDisposal _, EDisposal _ => true
@@ -49,6 +49,7 @@ Definition result_eqb (a b : result) : bool :=
   | RBool x, RBool y => Bool.eqb x y
   | RCount x, RCount y => x =? y
   | RDescs l, RDescs m => list_eqb descinfo_eqb l m
+  | RStats t l, RStats t' l' => (t =? t') && list_eqb (fun '(a, b, c) '(a', b', c') => (a =? a') && (b =? b') && (c =? c')) l l'
   | RErr c ms, RErr d ns => eclass_eqb c d && list_eqb Nat.eqb ms ns
   | _, _ => false
   end.
@@ -58,6 +59,7 @@ Definition event_eqb (a b : event) : bool :=
       (r =? r') && (i =? i') && list_eqb aval_eqb args args' && outcome_eqb o o'
   | EvClosed i ok own, EvClosed i' ok' own' => inst_eqb i i' && Bool.eqb ok ok' && (own =? own')
   | EvCycle p, EvCycle q => list_eqb ident_eqb p q
+  | EvCancel, EvCancel => true
   | _, _ => false
   end.
 
@@ -193,12 +195,13 @@ Definition aval_shape (hist : list event) (a : aval) : list nat :=
   | AProv => [9]
   | AZero => [10]
   end.
-Definition outcome_code (o : outcome) : nat := match o with OOk => 0 | OErr => 1 | OPanic => 2 | ONil => 3 end.
+Definition outcome_code (o : outcome) : nat := match o with OOk => 0 | OErr => 1 | OPanic => 2 | ONil => 3 | OCancelBuild => 4 end.
 Definition event_shape (hist : list event) (e : event) : list nat :=
   match e with
   | EvCtor rid _ args o => 11 :: rid :: outcome_code o :: flat_map (aval_shape hist) args
   | EvClosed i ok own => 12 :: (if ok then 1 else 0) :: own :: inst_shape shape_fuel hist i
   | EvCycle _ => [13]
+  | EvCancel => [14]
   end.
 Definition shape_eqb := list_eqb Nat.eqb.
 Definition count_shape (x : list nat) (l : list (list nat)) : nat := length (filter (shape_eqb x) l).
@@ -216,8 +219,8 @@ Fixpoint traces_equiv (h1 h2 : list event) (t1 t2 : trace) : bool :=
   | [], [] => true
   | (e1, r1) :: t1', (e2, r2) :: t2' =>
       let h1' := h1 ++ e1 in let h2' := h2 ++ e2 in
-      same_shapes (map (event_shape h1') (filter (fun e => negb (match e with EvCycle _ => true | _ => false end)) e1))
-                  (map (event_shape h2') (filter (fun e => negb (match e with EvCycle _ => true | _ => false end)) e2))
+      same_shapes (map (event_shape h1') (filter (fun e => negb (match e with EvCycle _ | EvCancel => true | _ => false end)) e1))
+                  (map (event_shape h2') (filter (fun e => negb (match e with EvCycle _ | EvCancel => true | _ => false end)) e2))
       && result_shape_eqb h1' h2' r1 r2 && traces_equiv h1' h2' t1' t2'
   | _, _ => false
   end.
